@@ -25,3 +25,4 @@ INVARIANT ContentRangeConsistent
 INVARIANT ZeroSizeIgnoresRange
 INVARIANT UnsatCarriesSize
 INVARIANT NotModifiedNoBody
+INVARIANT Emit
